@@ -30,7 +30,7 @@ def run(ctx):
         ctx.floor('C07.adversarial_objects', 40)
     saved = ctx.deadline
     ctx.deadline = time.time() + {'quick': 10, 'thorough': 120}[ctx.tier]
-    w_auto.run(ctx, ('C07',), {'quick': 1500, 'thorough': 60000}[ctx.tier])
+    w_auto.run(ctx, ('C07',), {'quick': 3000, 'thorough': 300000}[ctx.tier])
     ctx.deadline = saved
     w_corpus.run_corpus(ctx)
 
